@@ -1,5 +1,6 @@
 import GrinVerif.Lemmas.KeysArith
 import GrinVerif.Lemmas.KeysView
+import GrinVerif.Lemmas.KeysSeed
 /-! # C20 — keys, commitments and range-proof rewind are deterministic and recoverable
 
 Property theorems only. What is proved here is the **logic layer**: blinding-factor arithmetic
@@ -656,6 +657,78 @@ example :
     viewCovers [.hardened 0] (deriveKeyId 3 (2^31) 5 9 77) = true ∧
     viewCovers [.hardened 0] (deriveKeyId 3 (2^31) (2^31 + 5) 9 0) = false := by
   refine ⟨?_, ?_, ?_, ?_, ?_, ?_, ?_, ?_, ?_, ?_, ?_, ?_⟩ <;> decide +kernel
+
+/-! ## seeds of any length: another seed recovers nothing
+
+`SeedDeriv`: the master key is a function of the **whole** seed (`masterOf`, the abstract
+HMAC-SHA512 of `new_master`), seeds are byte strings of any length.  The three collision-freedom
+hypotheses (`SeedInj`, `SwitchInj`, `NonceInj`) are what HMAC-SHA512 / `blind_switch` / blake2b are
+trusted to give; the term instance `termSD` satisfies all of them.  That the *real* `from_seed`
+reads the whole seed for every length (16 … 255 bytes, common prefixes up to 95 bytes, one seed a
+strict prefix of the other) is established by the `seeds` correspondence run, not here. -/
+
+-- non-vacuity of the hypotheses: the term model satisfies all three
+example : SeedInj termSD ∧ SwitchInj termSD ∧ NonceInj termSD :=
+  ⟨termSD_seedInj, termSD_switchInj, termSD_nonceInj⟩
+
+/-- **different_seeds_different_master.**  Two different seeds — of any lengths, equal or not, one
+possibly a prefix of the other, differing in any single byte — give different master secret keys,
+and then different commitments for the same (amount, identifier, switch mode) and different rewind
+nonces for the same commitment. -/
+theorem different_seeds_different_master {K : Type} (sd : SeedDeriv K) (hinj : SeedInj sd)
+    (s s' : Bytes) (hne : s ≠ s') :
+    sd.secret (sd.masterOf s) ≠ sd.secret (sd.masterOf s') ∧
+    (∀ c, NonceInj sd → sd.rn s c ≠ sd.rn s' c) ∧
+    (∀ amount id sw c c', SwitchInj sd → id.toPath.depth ≤ 4 →
+      commit (sd.kd s) amount id sw = .ok c → commit (sd.kd s') amount id sw = .ok c' → c ≠ c') :=
+  ⟨master_ne sd hinj s s' hne, fun c hn => nonce_ne sd hinj hn s s' hne c,
+    fun amount id sw c c' hsw hd h h' => commit_ne sd hinj hsw s s' hne amount id sw c c' hd h h'⟩
+
+/-- **other_seed_recovers_nothing** (seeds of any length).  An output created under seed `s` with
+either proof-builder generation, in either switch mode, for any amount and identifier, is rewound
+to `None` by the `ProofBuilder`, the `LegacyProofBuilder` and every `ViewKey` (root or below, any
+path `vk`) of a different seed `s'`. -/
+theorem other_seed_recovers_nothing {K P : Type} (sd : SeedDeriv K) (hinj : SeedInj sd)
+    (hn : NonceInj sd) (cr : Crypto P) (s s' : Bytes) (hne : s ≠ s') (pn pn' : Opening → Nat)
+    (amount : Nat) (id : Ident) (sw : Switch) (c : Opening) (proof : P)
+    (hc : commit (sd.kd s) amount id sw = .ok c)
+    (hp : proofCreate (sd.kd s) cr (newBuilder (sd.kd s) (sd.rn s) pn) amount id sw = .ok proof ∨
+      proofCreate (sd.kd s) cr (legacyBuilder (sd.kd s) (sd.rn s)) amount id sw = .ok proof) :
+    proofRewind cr (newBuilder (sd.kd s') (sd.rn s') pn') c proof = .none ∧
+    proofRewind cr (legacyBuilder (sd.kd s') (sd.rn s')) c proof = .none ∧
+    (∀ vk, proofRewind cr (viewBuilder (sd.kd s') vk (sd.rn s')) c proof = .none) := by
+  have hnon : sd.rn s' c ≠ sd.rn s c := fun h => nonce_ne sd hinj hn s s' hne c h.symm
+  rcases hp with hp | hp
+  · exact ⟨rewind_other_seed (sd.kd s) cr _ _ amount id sw c proof hc hp hnon,
+      rewind_other_seed (sd.kd s) cr _ _ amount id sw c proof hc hp hnon,
+      fun vk => rewind_other_seed (sd.kd s) cr _ (viewBuilder (sd.kd s') vk (sd.rn s')) amount id sw c proof hc hp hnon⟩
+  · exact ⟨rewind_other_seed (sd.kd s) cr _ _ amount id sw c proof hc hp hnon,
+      rewind_other_seed (sd.kd s) cr _ _ amount id sw c proof hc hp hnon,
+      fun vk => rewind_other_seed (sd.kd s) cr _ (viewBuilder (sd.kd s') vk (sd.rn s')) amount id sw c proof hc hp hnon⟩
+
+/-- … while the seed rewinds its own output to exactly (amount, id, switch) — `rewind_recovers`
+instantiated with the keychain of the seed. -/
+theorem own_seed_recovers {K P : Type} (sd : SeedDeriv K) (cr : Crypto P) (s : Bytes)
+    (pn : Opening → Nat) (amount : Nat) (id : Ident) (sw : Switch) (c : Opening) (proof : P)
+    (hid : IdWF id) (hd : id.toPath.depth ≤ 4) (ha : amount < 2^64)
+    (hc : commit (sd.kd s) amount id sw = .ok c)
+    (hp : proofCreate (sd.kd s) cr (newBuilder (sd.kd s) (sd.rn s) pn) amount id sw = .ok proof) :
+    proofRewind cr (newBuilder (sd.kd s) (sd.rn s) pn) c proof = .some amount id sw :=
+  (rewind_recovers (sd.kd s) cr (sd.rn s) pn amount id sw c proof hid hd ha hc hp).2
+
+/-- Non-vacuity (kernel-evaluated on the term model under the toy crypto): a 16-byte seed and the
+17-byte seed that extends it by a zero byte (one a strict prefix of the other) have different master
+secrets; an output of the first is rewound by the first and not by the second. -/
+example :
+    let s : Bytes := List.replicate 16 7
+    let s' : Bytes := List.replicate 16 7 ++ [0]
+    let id := deriveKeyId 3 1 2 3 0
+    termSD.secret (termSD.masterOf s) ≠ termSD.secret (termSD.masterOf s') ∧
+    ∃ c p, commit (termSD.kd s) 5 id .regular = .ok c ∧
+      proofCreate (termSD.kd s) toyCrypto (newBuilder (termSD.kd s) (termSD.rn s) (fun _ => 1)) 5 id .regular = .ok p ∧
+      proofRewind toyCrypto (newBuilder (termSD.kd s) (termSD.rn s) (fun _ => 1)) c p = .some 5 id .regular ∧
+      proofRewind toyCrypto (newBuilder (termSD.kd s') (termSD.rn s') (fun _ => 1)) c p = .none :=
+  ⟨master_ne termSD termSD_seedInj _ _ (by decide), _, _, rfl, rfl, by decide +kernel, by decide +kernel⟩
 
 /-! ## determinism across the history of a keychain instance -/
 
